@@ -192,6 +192,7 @@ PROPS = {
             dict(key=ADV + '::general_poloidal_advection_step_impl'),
             dict(key=ADV + '::poloidal_advection_step_impl'),
         ],
+        case_functions=[dict(module='vf.contracts.classes_c12', key='pygyro/advection/advection.py::PoloidalAdvection.step')],
         bounded=[dict(module='vf.rt.bounded_adv', prop='C12',
                       bound='PoloidalAdvection.step explicit and implicit against own characteristic tracing and boundary values, constant potential, rigid rotation, explicit-vs-implicit order, termination watchdog; gridStep variants on process grids up to 3x2')],
         assumptions=['S2 names the value returned by the 2-D spline evaluator passed in (general or uniform-cubic); that it is the '
